@@ -572,4 +572,7 @@ def check_op(inst, rec, oc, labels):
         sig = {"sleep": "sleep-wrong-date", "exec": "exec-wrong-date", "join": "join-wrong-date", "suspend_self": "resume-wrong-date"}.get(o, "operation-wrong-date")
         if inst.susp and any(s <= t1 < r for s, r in inst.susp if s < r) and t1 > t0:
             sig = "suspended-actor-makes-progress"
+        if t1 == t0 and [t0, t0] in inst.susp and min(exp) > t0:
+            # suspended and resumed by two other actors in the very round in which it issued this blocking request (known/C11.json)
+            sig = "resume-in-the-round-of-a-blocking-request:returns-at-once"
         oc.bad(sig, "%s returned at %r, expected %s%s" % (who, t1, sorted(exp), "; suspensions %s" % inst.susp if inst.susp else ""))
